@@ -171,6 +171,14 @@ func (ex *Exec) checkFrame(st *State, p *PtrV, pos token.Pos) {
 	ex.checkGuardedWrite(st, st.top(), p, pos)
 	ex.checkImmutable(st, p, pos)
 	top := ex.topFrame(st)
+	// 'preserves-type T' is a promise also under 'modifies *': no store into a T that existed at entry
+	if top.Spec != nil && ex.pure == nil && !st.Fresh[p.Ref] && top.EntryFull != nil {
+		for _, tn := range top.Spec.PreservesTypes {
+			if p.Class == tn || strings.HasPrefix(p.Class, tn+".") {
+				ex.emit(st, "frame", ex.srcLabel(st.top().Fn, pos, "preserves-type:"+tn), Lt(top.EntryFull.Frontier, p.Ref), pos, top.Spec.Props)
+			}
+		}
+	}
 	if top.Spec == nil || top.Spec.ModAll || ex.pure != nil {
 		return
 	}
@@ -356,6 +364,19 @@ func (ex *Exec) havocLoop(st *State, fr *Frame, ld *loopDesc) {
 	heapAll := false
 	ghostAll := false
 	classes := map[string]bool{}
+	// types every "may write anything" callee of the loop promises to leave alone (nil entry = no promise)
+	var promises [][]string
+	all := func(sp *FuncSpec) {
+		heapAll = true
+		switch {
+		case sp == nil:
+			promises = append(promises, nil)
+		case sp.Extern:
+			promises = append(promises, []string{"*"})
+		default:
+			promises = append(promises, sp.PreservesTypes)
+		}
+	}
 	var scan func(fn *ssa.Function, blocks map[*ssa.BasicBlock]bool, depth int)
 	scan = func(fn *ssa.Function, blocks map[*ssa.BasicBlock]bool, depth int) {
 		for _, b := range fn.Blocks {
@@ -430,10 +451,11 @@ func (ex *Exec) havocLoop(st *State, fr *Frame, ld *loopDesc) {
 									classes[c] = true
 								}
 							}
+							all(sp)
 						} else {
 							ghostAll = true
+							all(nil)
 						}
-						heapAll = true
 						continue
 					}
 					if bi, ok := cc.Value.(*ssa.Builtin); ok {
@@ -445,20 +467,20 @@ func (ex *Exec) havocLoop(st *State, fr *Frame, ld *loopDesc) {
 						case "delete":
 							classes[mapClass(cc.Args[0].Type())] = true
 						case "clear", "close":
-							heapAll = true
+							all(nil)
 						}
 						continue
 					}
 					callee := cc.StaticCallee()
 					if callee == nil {
-						heapAll = true
+						all(nil)
 						ghostAll = true
 						continue
 					}
 					full := callee.String()
 					if _, ok := models[full]; ok {
 						if strings.Contains(full, "Lock") || strings.Contains(full, "Unlock") {
-							heapAll = true // monitor entry havocs guarded state
+							all(nil) // monitor entry havocs guarded state
 						}
 						if strings.Contains(full, "atomic") {
 							classes["atomic.Value"] = true
@@ -479,7 +501,7 @@ func (ex *Exec) havocLoop(st *State, fr *Frame, ld *loopDesc) {
 							continue
 						}
 						if sp.ModAll {
-							heapAll = true
+							all(sp)
 						}
 						for _, m := range sp.Modifies {
 							for _, c := range ex.staticModClasses(sp, callee, callee.Signature, m.Expr) {
@@ -495,7 +517,7 @@ func (ex *Exec) havocLoop(st *State, fr *Frame, ld *loopDesc) {
 						}
 						continue
 					}
-					heapAll = true
+					all(nil)
 					if callee.Blocks != nil && ex.inRepo(callee) {
 						ghostAll = true
 					}
@@ -505,7 +527,65 @@ func (ex *Exec) havocLoop(st *State, fr *Frame, ld *loopDesc) {
 	}
 	scan(fr.Fn, ld.Blocks, fr.Depth)
 	if heapAll {
+		// types that every such callee preserves and that the loop does not store to directly keep their state
+		keep := map[string]*Term{}
+		var keptTypes []string
+		if len(promises) > 0 && promises[0] != nil {
+			cand := map[string]bool{}
+			top := ex.topFrame(st)
+			for _, pr := range promises {
+				if len(pr) == 1 && pr[0] == "*" {
+					continue
+				}
+				for _, t := range pr {
+					cand[t] = true
+				}
+			}
+			if top.Spec != nil {
+				for _, t := range top.Spec.PreservesTypes {
+					cand[t] = true
+				}
+			}
+			for t := range cand {
+				ok := true
+				for _, pr := range promises {
+					if pr == nil {
+						ok = false
+						break
+					}
+					if len(pr) == 1 && pr[0] == "*" {
+						continue
+					}
+					has := false
+					for _, t2 := range pr {
+						if t2 == t {
+							has = true
+						}
+					}
+					if !has {
+						ok = false
+					}
+				}
+				for c := range classes {
+					if c == t || strings.HasPrefix(c, t+".") {
+						ok = false
+					}
+				}
+				if ok {
+					keptTypes = append(keptTypes, t)
+					for class, h := range st.Heap {
+						if strings.HasPrefix(class, t+".") {
+							keep[class] = h
+						}
+					}
+				}
+			}
+		}
+		st.PendingExcept = keptTypes
 		ex.havocAll(st, true, ghostAll)
+		for class, h := range keep {
+			st.Heap[class] = h
+		}
 		nf := Fresh("hi", SInt)
 		st.assume(Le(st.Frontier, nf))
 		st.Frontier = nf
